@@ -274,8 +274,9 @@ StepEnter(cfg, o, ln) ==
       w2b == IF IsParallel(cfg, ln.b) THEN {}
              ELSE {W("C02.serial", ln.e, ln.b, ln.h, y.act, ln.byk) : y \in {z \in o.open : z.b = ln.b /\ z.aw = 0}}
       \* C05: between await-begin and the child's completion only the child and its descendants run
-      drainerWaiting == \E tk \in o.take : tk[1] = ln.b /\ tk[2] = ln.e /\ tk[3]
-      w5 == {W("C05.unrelated", ln.e, ln.b, ln.h, y.act, IF ln.byk = "in" /\ ~drainerWaiting THEN "in_after_done" ELSE ln.byk) :
+      takeKind == IF \E tk \in o.take : tk[1] = ln.b /\ tk[2] = ln.e THEN (CHOOSE tk \in o.take : tk[1] = ln.b /\ tk[2] = ln.e)[3] ELSE "work"
+      w5 == {W("C05.unrelated", ln.e, ln.b, ln.h, y.aw, IF ln.byk # "in" THEN ln.byk ELSE IF takeKind = "done" THEN "in_after_done"
+                                                         ELSE IF takeKind = "nowork" THEN "in_nothing_left" ELSE "in") :
                y \in {z \in o.open : z.aw # 0 /\ ~Done(o, z.aw) /\ ln.e \notin Sub(o, z.aw) /\ ~SiblingsPar(cfg, x, z)
                                    /\ ~\E z2 \in o.open : z2.act # z.act /\ SiblingsPar(cfg, z2, z) /\ z2.aw # 0 /\ ln.e \in Sub(o, z2.aw)}}
       \* C06: cross-bus mutual exclusion
@@ -413,9 +414,16 @@ StepExpE(cfg, o, ln) ==
 \* ------------------------------------------------------------------------
 StepProcB(cfg, o, ln) ==
   LET n == IF ln.n >= 0 THEN ln.n ELSE 0
-      waiting == ln.ok = "in" /\ \E z \in o.open : z.act = ln.oa /\ z.aw # 0 /\ ~o.snap[z.aw].sig
+      \* why is the draining handler still draining?  "work": something of the awaited tree is still queued / held / being processed;
+      \* "nowork": nothing of it is left anywhere, yet it is not complete; "done": the awaited event is already complete
+      drainer == {z \in o.open : z.act = ln.oa /\ z.aw # 0}
+      kind == IF ln.ok # "in" \/ drainer = {} THEN "work"
+              ELSE LET aw == (CHOOSE z \in drainer : TRUE).aw IN
+                   IF o.snap[aw].sig THEN "done"
+                   ELSE IF \E d \in Sub(o, aw) : \E b \in DOMAIN o.acc : InSeq(d, o.acc[b]) /\ (InSeq(d, o.q[b]) \/ ~ProcFinished(o, b, d)) THEN "work"
+                   ELSE "nowork"
       o1 == [o EXCEPT !.procB = @ \cup {<<ln.b, ln.e>>},
-                      !.take = IF ln.ok = "in" THEN {tk \in @ : ~(tk[1] = ln.b /\ tk[2] = ln.e)} \cup {<<ln.b, ln.e, waiting>>} ELSE @,
+                      !.take = IF ln.ok = "in" THEN {tk \in @ : ~(tk[1] = ln.b /\ tk[2] = ln.e)} \cup {<<ln.b, ln.e, kind>>} ELSE @,
                       !.exps = {IF ~x.done /\ x.b = ln.b /\ x.ty = o.ety[ln.e] THEN [x EXCEPT !.cands = Append(@, <<ln.e, n, ln.t>>)] ELSE x : x \in @}]
   IN o1
 StepProcE(cfg, o, ln) == Bump([o EXCEPT !.proc[ln.b] = Append(@, ln.e)], "complete")
